@@ -33,7 +33,7 @@ BoundsThorough == [hist |-> Hist(6), acl |-> AclT(3, 2), bytes |-> Bytes(2, 1, 2
 BoundsFull     == [full |-> Bd(2, 1, 1, AllEv, {"signed", "derived", "reduced"}, {"S", "W", "X"}, AllMuts, AllPKinds, BOOLEAN)]
 \* behaviour generation (TreeAuthGen): hist exhaustively, acl / bytes by -simulate (may exceed the exhaustive bounds)
 GenHistQ == [hist |-> Hist(3)]
-GenHistT == [hist |-> Hist(5)]
+GenHistT == [hist |-> Hist(4)]
 GenSimQ  == [acl |-> AclT(3, 2), bytes |-> Bytes(2, 1, 2)]
 GenSimT  == [acl |-> AclT(4, 2), bytes |-> Bytes(2, 2, 2)]
 BoundsTrace == [trace |-> Bd(99, 99, 9, AllEv, {"signed", "derived", "reduced"}, {"S", "W", "X"}, AllMuts, AllPKinds, BOOLEAN)]
